@@ -83,7 +83,7 @@ type c24Claim struct {
 	out       [sr25519.VRFOutputLength]byte
 	proof     [sr25519.VRFProofLength]byte
 	sealBy    int  // authority whose key seals
-	sealFlip  bool // flip a bit of the seal
+	sealFlip  int  // 0 none; 1 a bit of R, 2 a bit of s, 3 the schnorrkel marker bit (byte 63 bit 7) flipped
 	extraLast bool // a further digest item after the seal
 	noPre     bool // pre-runtime digest replaced by a consensus digest
 	desc      string
@@ -125,8 +125,13 @@ func c24Header(c c24Claim, kps []*sr25519.Keypair) (*types.Header, error) {
 	if err != nil {
 		return nil, err
 	}
-	if c.sealFlip {
+	switch c.sealFlip {
+	case 1:
 		sig[5] ^= 0x10
+	case 2:
+		sig[40] ^= 0x01
+	case 3:
+		sig[63] ^= 0x80
 	}
 	if err := h.Digest.Add(types.SealDigest{ConsensusEngineID: types.BabeEngineID, Data: sig}); err != nil {
 		return nil, err
@@ -215,6 +220,11 @@ func c24Reference(c c24Claim, h *types.Header, secondarySlots byte, auths []type
 	if !ok {
 		return false, "last item is not a seal"
 	}
+	if c.sealFlip != 0 {
+		// the harness itself corrupted one bit of a valid signature: it is not a signature of anybody (decided
+		// from the construction, not by asking the library under test)
+		return false, "seal is a corrupted signature"
+	}
 	okSig, err := pk.Verify(hash[:], seal.Data)
 	if err != nil || !okSig {
 		return false, "seal not signed by the claiming authority"
@@ -227,7 +237,7 @@ func TestVerif_C24(t *testing.T) {
 	defer r.Write()
 	maxN := verifmc.Pick(3, 6)
 	nSlots := verifmc.Pick(4, 48)
-	r.Rule = fmt.Sprintf("every (allowed-slots configuration 0/1/2, n=1..%d sr25519 authorities, threshold from c in {1/1, 1/2, 1/10^6}, slot 0..%d, claiming authority, claim kind primary/secondary-plain/secondary-VRF with the claimant's own correct VRF signature) x deviations {none, every other authority index incl. n and 2^32-1, VRF output bit flip, VRF proof bit flip, slot changed after signing, seal bit flip, seal by every other authority, extra digest after the seal, pre-runtime digest missing}; verdict of the real verifier (built by VerificationManager.getVerifierInfo + newVerifier) compared with a reference evaluation of the statement; additionally every claim produced by the node's own claimSlot must verify", maxN, nSlots-1)
+	r.Rule = fmt.Sprintf("every (allowed-slots configuration 0/1/2, n=1..%d sr25519 authorities, threshold from c in {1/1, 1/2, 1/10^6}, slot 0..%d, claiming authority, claim kind primary/secondary-plain/secondary-VRF with the claimant's own correct VRF signature) x deviations {none, every other authority index incl. n and 2^32-1, VRF output bit flip, VRF proof bit flip, slot changed after signing, seal bit flip (in R, in s, the schnorrkel marker bit), seal by every other authority, extra digest after the seal, pre-runtime digest missing}; verdict of the real verifier (built by VerificationManager.getVerifierInfo + newVerifier) compared with a reference evaluation of the statement; additionally every claim produced by the node's own claimSlot must verify", maxN, nSlots-1)
 	r.Assumption("sr25519 VRF and signature primitives (go-schnorrkel) are trusted; the reference uses them only as primitives")
 	randomness := [32]byte{0x42, 1, 2, 3}
 	epoch := uint64(3)
@@ -320,10 +330,15 @@ func TestVerif_C24(t *testing.T) {
 							c.slot = slot + 1
 							c.desc = "slot changed after signing"
 							claims = append(claims, c)
-							c = base
-							c.sealFlip = true
-							c.desc = "seal bit flipped"
-							claims = append(claims, c)
+							for f, what := range []string{"", "in R", "in s", "the schnorrkel marker"} {
+								if f == 0 {
+									continue
+								}
+								c = base
+								c.sealFlip = f
+								c.desc = "seal bit flipped (" + what + ")"
+								claims = append(claims, c)
+							}
 							for j := 0; j <= n; j++ {
 								if j != who {
 									c = base
